@@ -30,7 +30,7 @@ func (e pCodedErr) OriginError() error { return nil }
 func newPWorld(c *Ctx, r *Rng) *pWorld {
 	w := &pWorld{c: c, r: r, kickCh: make(chan struct{}, 1), roles: map[int64]pRole{}, gidSlot: map[int64]int{}, allocRid: map[int64]int{},
 		reqPtr: map[uintptr]int{}, ridDead: map[int]bool{}, reqs: map[int]*pReqInfo{}, held: map[string]map[string][]int{}, heldBy: map[string]string{},
-		everUsed: map[int]bool{}, goneWhy: map[string]string{}, goneSeen: map[string]bool{}, stop: make(chan struct{})}
+		everUsed: map[int]bool{}, goneWhy: map[string]string{}, goneSeen: map[string]bool{}, loadSaw: map[int64][]string{}, seenSeq: map[string]int{}, bindSeq: map[string]int{}, lastOwner: map[string]string{}, lastStatus: map[int]string{}, stop: make(chan struct{})}
 	w.cfgCap = 2 + r.Intn(3)
 	w.batch = 1 + r.Intn(3)
 	switch r.Intn(4) {
@@ -550,8 +550,12 @@ func (w *pWorld) monitorReply(pod, eniID string, ips []int) {
 		if e == nil || !e.ips[id] {
 			// not in the cloud any more.  Allowed: the pod already held it (a repeat request gets its address
 			// back), or the cloud dropped it behind the daemon's back and no sync has seen that yet.
-			if w.heldBy[k] != pod && (w.goneWhy[k] != "remote" || w.goneSeen[k]) {
-				w.violate("C01/handed/not-assigned", fmt.Sprintf("%s handed to %s is not assigned to that interface in the cloud (%s, seen by a sync: %v)", k, pod, orDash(w.goneWhy[k]), w.goneSeen[k]))
+			w.evMu.Lock()
+			seenAt, seen := w.seenSeq[k]
+			boundAt := w.bindSeq[k]
+			w.evMu.Unlock()
+			if w.heldBy[k] != pod && (w.goneWhy[k] != "remote" || (seen && seenAt < boundAt)) {
+				w.violate("C01/handed/not-assigned", fmt.Sprintf("%s handed to %s is not assigned to that interface in the cloud (%s; a sync applied the removal before the address was bound: %v)", k, pod, orDash(w.goneWhy[k]), seen && seenAt < boundAt))
 			}
 		}
 	}
